@@ -14,6 +14,9 @@ def msa_positions(n):
     for i in range(n):
         pos.append(['at', i])
         pos.append(['justbelow', i])
+        pos.append(['ulpabove', i])
+        pos.append(['tinyabove', i])
+        pos.append(['ulpbelow', i])
         if i < n - 1:
             pos.append(['between', i])
     return pos
@@ -50,9 +53,16 @@ def plan(num, tier, seed):
         {'oktas': [0, 0], 'msa': ['above']},
         {'oktas': [5, 8], 'msa': ['justbelow', 1], 'h0': 1070.0},
         {'oktas': [8], 'msa': ['justbelow', 0], 'h0': 10698.0},
+        {'oktas': [3, 6], 'msa': ['tinyabove', 1], 'h0': 1070.0}, {'oktas': [6], 'msa': ['ulpabove', 0], 'h0': 9999.95},
+        {'oktas': [2, 8], 'msa': ['ulpbelow', 1], 'h0': 2500.0},
+        {'oktas': [8], 'msa': None, 'h0': -0.0}, {'oktas': [3, 8], 'msa': ['above'], 'h0': -0.0, 'nce': 2},
     ]
     for j, k in enumerate(combos):
         out.append({'fam': 'flat', 's': seed, 'p': num, 'i': 100000 + j, 'k': k})
+    nref = 17 * (2 if tier == 'quick' else 24)
+    for i in range(nref):        # real-world reference scenes of the repository (perturbed), random parameters
+        out.append({'fam': 'refdata', 's': seed, 'p': num, 'i': 700000 + i,
+                    'k': {'file': i % 17, 'perturb': (i // 17) % 5, 'default_prms': i < 17}})
     # table-driven: every okta table up to n layers x MSA positions x flag, real metar_msg
     for n in range(0, z['tables_n'] + 1):
         parts = 1 if n < 3 else (8 if n == 3 else 64)
@@ -82,6 +92,12 @@ def _msa_value(m, hs, spacing):
         return hs[m[1]]
     if m[0] == 'justbelow':
         return hs[m[1]] - 20.0
+    if m[0] == 'ulpabove':
+        return float(np.nextafter(hs[m[1]], np.inf))
+    if m[0] == 'tinyabove':
+        return hs[m[1]] * (1 + 4e-6) + 1e-4
+    if m[0] == 'ulpbelow':
+        return float(np.nextafter(hs[m[1]], -np.inf))
     raise ValueError(m)
 
 
